@@ -102,6 +102,7 @@ class ConsistentHashRing:
     if self.nodes_len == 1:
       for node in self.nodes:
         yield node
+      return
     position = self.compute_ring_position(key)
     search_entry = (position, ())
     index = bisect.bisect_left(self.ring, search_entry) % self.ring_len
